@@ -36,6 +36,7 @@ FIXED = [
  ("F26", "C18", ["RK4 takes a zero-length extra step after landing exactly on xend"], "RK4: with steps of a few ulps the accumulated x lands exactly on xend without the last-step flag; a zero-length extra step is taken and counted (naccpt = reported intervals + 1)", ["F26-rk4-zero-length-extra-step"]),
  ("F27", "C10", ["first_step output is dropped when a terminal event follows it"], "first_step (no t_eval) + terminal event after x0+first_step in the step that reaches it: the first_step sample is lost although the same run without the terminal flag reports it before the event", ["F27-first_step-target-dropped-before-terminal-event"]),
  ("F28", "C19", ["RK23 hands SolOut an interpolant with all-zero coefficients after XOut"], "RK23 with the low-level dense_output off: once a requested XOut abscissa is reached the callback receives an interpolant built from a never-filled (all-zero) coefficient buffer (also C06); found after ControlFlag::XOut and the dense switch were added to the simulated SolOut's schedule", ["F28-rk23-xout-interpolant-zero-coefficients"]),
+ ("F29", "C09", ["events of very small event functions are mislocated"], "Brent iteration tests the bracket with fb*fc > 0: for event functions of magnitude below ~1e-154 the product underflows to zero and the event is located far from the root (also C08); found after event-function scales were widened to 1e-220..1e220 (first noticed by a seeding sub-agent as pre-existing behaviour)", ["F29-brent-sign-product-underflow"]),
  ("F23", "C06", ["sol(t) rejects the last reported time"], "Solution::sol/sol_many return OutOfRange for the last reported time when the final accepted abscissa is an ulp short of a reported t_eval time", ["F23-sol-rejects-last-reported-time"]),
 ]
 
